@@ -272,7 +272,7 @@ func runC20(env *lib.Env, rep *lib.Report) {
 					if b1 != 0 && b2 != 0 && (i+j)%3 != 0 && !env.Thorough() {
 						continue
 					}
-					for _, between := range []string{" ", "\r", "", "  \r "} {
+					for _, between := range []string{" ", "\r", "", "  \r ", "\r\r", "\r \r"} { // (the last two: an empty / a blank line between the statements)
 						for _, ch := range chunks {
 							check("pair", []string{c20Render(f1, b1), c20Render(f2, b2)}, []string{between}, "", ch)
 						}
